@@ -19,6 +19,7 @@ func init() {
 	vsRegister("C13.node_proof", vhC13NodeProof)
 	vsRegister("C13.store_last_node", vhC13StoreLastNode)
 	vsRegister("C13.bytecode_binding", vhC13BytecodeBinding)
+	vsRegister("C13.check_node_hash", vhC13CheckNodeHash)
 	vsRegister("C13.storage_node_binding", vhC13StorageNodeBinding)
 	vsRegister("C13.account_state_path", vhC13AccountStatePath)
 }
@@ -296,6 +297,27 @@ func vhC13AccountStatePath() {
 	if err == nil {
 		vsCover("accepted")
 	} else {
+		vsCover("rejected")
+	}
+}
+
+// checkNodeHash accepts a reference only if it is EXACTLY the 32-byte keccak of the node: a
+// reference of any other length (0..40 bytes - e.g. the value a leaf hands back, which is what stops
+// a proof from continuing past a leaf) is a mismatch, never truncated or padded.
+//
+//verif:harness C13.check_node_hash unwind=60
+//verif:uf,injective github.com/ethereum/go-ethereum/crypto.Keccak256
+func vhC13CheckNodeHash() {
+	node := EncodedTrieNode(vsBytesN("raw", 3))
+	ref := vsBytes("reference", 40)
+	err := checkNodeHash(&node, ref)
+	want := crypto.Keccak256(node)
+	if err == nil {
+		vsAssert(len(ref) == 32, "reference-is-exactly-32-bytes")
+		vsAssert(bytes.Equal(ref, want), "reference-is-the-nodes-keccak")
+		vsCover("accepted")
+	} else {
+		vsAssert(!bytes.Equal(ref, want), "matching-reference-accepted")
 		vsCover("rejected")
 	}
 }
